@@ -10,6 +10,11 @@ From Aldrin Require Import gen.DeriveConsts.
 Import ListNotations.
 Open Scope string_scope.
 
+(* codegen/src/rust.rs: no emission site of #[aldrin(doc = ...)] pastes the text unescaped any more
+   (all of them format it with {doc:?}); see Derive/DocAttr.v and C16_doc_attr_current *)
+Example doc_attr_tie : DOC_ATTR_SITES_RAW = 0%N /\ DOC_ATTR_SITES_ESCAPED <> 0%N.
+Proof. split; [reflexivity | discriminate]. Qed.
+
 Example result_ids_tie : RESULT_OK_ID = 0%N /\ RESULT_ERR_ID = 1%N.
 Proof. split; reflexivity. Qed.
 
